@@ -141,6 +141,17 @@ CHECKS = {
              "(now, later, pool task, OS thread, dropped), wrapper copies and releases on other threads, early mutex destruction.",
         note="Requests are retrieved from one thread as the API requires; interleavings sampled (no hooks inside async_rw_mutex).",
         ref="DESIGN.md section 2, C04"),
+    "C03": dict(
+        technique="runtime monitoring: reference interpreter over run-time generated sender terms (set of admissible completions), "
+                  "recording receiver that frees its operation state inside the completion call, tracked-value instance ledger, "
+                  "concurrent-consumer rounds; ASan+UBSan and TSan as extra oracles",
+        text="Exploration: per run ~18000 random pipelines (every adaptor named by the property, three leaf channels x three completion "
+             "timings, throwing callables, three kinds of terminal consumer) compared with the reference interpreter, 16 un-erased "
+             "static shapes x channel x timing, and thousands of rounds starting 2-4 consumers of one split/split_tuple at the same "
+             "instant from different threads; hook delays in the shared-state done/add-continuation window.",
+        note="D2 (stopped lost in split/split_tuple/when_all_vector) and D17 (split_tuple shared state freed under its predecessor) "
+             "were found here and fixed. sync_wait/start_detached are only used where pika defines their behaviour.",
+        ref="DESIGN.md section 2, C03"),
 }
 
 NOT_YET = "not claimed yet: harness under construction in this session (see DESIGN.md section 2)"
